@@ -232,7 +232,7 @@ func checkC08(e *Env) {
 		}
 		bad := ""
 		n := 0
-		for _, f := range withAnon(fn)[1:] {
+		for _, f := range closuresWithHelpers(e, fn) {
 			for _, b := range f.Blocks {
 				for _, in := range b.Instrs {
 					if c, ok := in.(ssa.CallInstruction); ok {
